@@ -275,4 +275,7 @@ def run(tier):
     ck.note("G4 analysed %d functions that hold guards; positive control reported %s" % (nfn, sorted(bad)))
     ck.assume("values read from parameters, interpreter fields or heap objects are rooted by the caller / the heap (not tracked)")
     ck.assume("every call through a function pointer may collect")
+    # ---------------- G5 a suspended VM is re-rooted when it is rebuilt (same rule as C07 R3b)
+    import c07
+    c07.rerooting_rule(fx, ck, "G5.rerooting-symmetric")
     return ck.finish()
